@@ -27,6 +27,7 @@ import (
 const repoMod = "github.com/uber/tchannel-go"
 
 type Engine struct {
+	localHints map[string]map[string]localHint // function key -> local name -> generated hint (locals.go)
 	prog          *ssa.Program
 	fset          *token.FileSet
 	pkgs          []*packages.Package
@@ -329,6 +330,7 @@ func (e *Engine) newFnCtx(fn *ssa.Function, discovery bool, prev *FnCtx) *FnCtx 
 		tagTypes: map[int]types.Type{}, poolVals: map[string]bool{}, structAssumed: map[string]bool{}, freshObj: map[string]bool{}, immut: map[string]bool{}, writtenNames: map[string]bool{}, nonNil: map[string]bool{}}
 	if fc.con != nil {
 		fc.props = fc.con.Props
+		fc.rebindLocals()
 	}
 	if prev != nil {
 		fc.loopWrites, fc.loopCellW, fc.loopHavocAll = prev.loopWrites, prev.loopCellW, prev.loopHavocAll
